@@ -167,6 +167,8 @@ def check_program(prog, depth, res=None, hist=None):
         node = LS.build(prog)
     except Exception as e:
         return ('build', repr(e)[:200], None)
+    if not irtools.simplifies(node):
+        return None
     args = LS.arguments(prog)
     envs = make_envs(args)
     expected = []
